@@ -90,12 +90,17 @@ pub fn complete(
                 }
             }
         } else if let Some(short) = arg.to_short() {
+            // Like the parser, only take a group as a hyphen value of the positional when it isn't
+            // made of known flags
+            let known_flags = short
+                .clone()
+                .all(|c| c.is_ok_and(|c| has_short(current_cmd, c)));
             let (_, takes_value_opt, mut short) = parse_shortflags(current_cmd, short);
             if let Some(opt) = takes_value_opt {
                 if short.next_value_os().is_none() {
                     next_state = ParseState::Opt((opt, 1));
                 }
-            } else if pos_allows_hyphen(current_cmd, pos_index) {
+            } else if !known_flags && pos_allows_hyphen(current_cmd, pos_index) {
                 (next_state, pos_index) =
                     parse_positional(current_cmd, pos_index, is_escaped, current_state);
             }
@@ -675,6 +680,13 @@ fn parse_opt_value(opt: &clap::Arg, count: usize) -> ParseState<'_> {
     } else {
         ParseState::ValueDone
     }
+}
+
+fn has_short(cmd: &clap::Command, short: char) -> bool {
+    cmd.get_arguments().any(|a| {
+        a.get_short_and_visible_aliases()
+            .is_some_and(|shorts| shorts.contains(&short))
+    })
 }
 
 fn pos_allows_hyphen(cmd: &clap::Command, pos_index: usize) -> bool {
